@@ -57,7 +57,7 @@ def typeable(words):
 
 
 class C14(Prop):
-    """Theorems (Props/C14.lean): every index-writer construction in db.rs asks for one thread (re-extracted each run); with one worker every schedule yields the shipped document order, so in-memory, first on-disk and reopened sessions answer every query alike, ties included; with any number of workers a unique top score is schedule-independent, and a tie is not (counterexample). Correspondence: repeated real builds in memory, on disk, reopened, over every fact's words and ambiguous prefixes. tantivy's scheduler and f32 ranking are outside the model (partial)."""
+    """Theorems (Props/C14.lean): every index-writer construction in db.rs asks for one thread (re-extracted each run); with one worker every schedule yields the shipped document order, so in-memory, first on-disk and reopened sessions answer every query alike, ties included; with any number of workers a unique top score is schedule-independent, and a tie is not (counterexample). Correspondence: repeated real builds in memory, on disk, reopened, over every fact's words and ambiguous prefixes. tantivy's scheduler and f32 ranking are outside the model (partial). A long-lived on-disk session keeps answering from what it opened while another start recreates the index (harness `dbhold`)."""
     id = "C14"
     module = "Anything.Props.C14"
     needs_db_tables = True
@@ -416,7 +416,7 @@ def foreign_build_histories(probes, fresh, tmpl, current, tier):
 
 
 class C15(Prop):
-    """Theorems (Props/C15.lean): the rebuild state machine keeps the invariant `metadata says current and the index opens => the committed index is the shipped data` through every step, crash prefix and listed damage, so every history ends with fresh answers and the metadata is written only after the commit; correspondence: real runs aborted at each crash point from every prior directory state, followed by restarts, compared with the model's predicted metadata state and with a freshly built in-memory database."""
+    """Theorems (Props/C15.lean): the rebuild state machine keeps the invariant `metadata says current and the index opens => the committed index is the shipped data` through every step, crash prefix and listed damage, so every history ends with fresh answers and the metadata is written only after the commit; correspondence: real runs aborted at each crash point from every prior directory state, followed by restarts, compared with the model's predicted metadata state and with a freshly built in-memory database. Also in the model and in the real histories: in-memory sessions with the same directory, starts of ANOTHER build of the same version with other data (`C15_inv_foreign`; a second real build from a scratch copy), other data of the same shape."""
     id = "C15"
     module = "Anything.Props.C15"
     trusted = ["tantivy: commit is atomic, an uncommitted writer is invisible after restart", "file system: each modelled step is atomic; File::create + write is two steps"]
@@ -739,7 +739,7 @@ class C17(Prop):
 
 
 class C18(Prop):
-    """Theorems (Props/C18.lean): values do not depend on the describe flag; no log without it; the log appends, independent of the incoming log; every entry is a successful lookup paired with that constant's description; the value depends on the database only through the reported phrases (and each is needed); order (right operand first); results of several queries = results in isolation, also permuted. Correspondence: expressions mixing literals and facts with and without descriptions in varying orders; isolation scenario (fresh instance per phrase vs shared instance in several orders, case variants, capitalised operators). Unified language (Props/UnifiedQuery.lean): `C18_query_unified` — same values with and without describe and the exact log for quantity expressions with fact leaves. Full language (Props/FullQuery.lean): `C18_query_full` — describe does not change the value and the log is the lookups in evaluation order, for the whole language."""
+    """Theorems (Props/C18.lean): values do not depend on the describe flag; no log without it; the log appends, independent of the incoming log; every entry is a successful lookup paired with that constant's description; the value depends on the database only through the reported phrases (and each is needed); order (right operand first); results of several queries = results in isolation, also permuted. Correspondence: expressions mixing literals and facts with and without descriptions in varying orders; isolation scenario (fresh instance per phrase vs shared instance in several orders, case variants, capitalised operators). Unified language (Props/UnifiedQuery.lean): `C18_query_unified` — same values with and without describe and the exact log for quantity expressions with fact leaves. Full language (Props/FullQuery.lean): `C18_query_full` — describe does not change the value and the log is the lookups in evaluation order, for the whole language. The description block printed by `any --describe` is compared with lines composed independently from the library's descriptions and the database's source records."""
     id = "C18"
     module = "Anything.Props.C18"
     extra_modules = ["Anything.Props.FactQuery", "Anything.Props.UnifiedQuery", "Anything.Props.FullQuery"]
